@@ -341,6 +341,14 @@ def check_same_decay(ctx: Check, tree: Tree) -> None:
                         keyed_ok = True
         if not keyed_ok:
             skipped.append(path)
+    # the neutral result 1 is only returned for a decay the selector does not know
+    for r in [r for r in walk_function(fn.node, nested=False) if isinstance(r, ast.Return) and r.value is not None and unparse(r.value) in {"sp.S.One", "1", "sp.Integer(1)"}]:
+        guards = [a for a in ancestors(r) if isinstance(a, ast.If)]
+        ok_g = any(isinstance(g.test, ast.Compare) and len(g.test.ops) == 1 and isinstance(g.test.ops[0], ast.NotIn) and "dynamics" in unparse(g.test.comparators[0])
+                   and any(r is n for b_ in g.body for n in ast.walk(b_)) for g in guards)
+        ctx.verdict(ok_g, "R-SAMEDECAY", f"{fn.qual}::neutral-only-for-unknown-decay", tree.loc(r),
+                    "`return 1` (no dynamics) is only reached when the decay is not a key of the selector",
+                    None if ok_g else {"guards": [unparse(g.test) for g in guards]})
     ctx.verdict(not skipped, "R-SAMEDECAY", f"{fn.qual}::builder-called-on-every-path", tree.loc(c),
                 "every path of __formulate_dynamics that returns a lineshape calls the builder assigned to THIS decay (or reads a memo keyed by that builder / decay)",
                 None if not skipped else f"{len(skipped)} path(s) return an expression without calling `{unparse(c.func)}`: a lineshape formulated for another decay / by another builder is reused")
